@@ -268,143 +268,31 @@ def sig_of(f):
     return {'flavour': f['scen']['flavour'], 'op': m['op'], 'kind': f['kind'], 'self_loop': m['v'] is not None and m['u'] == m['v']}
 
 
-def make_worker(prop):
-    def worker(item):
-        import runner
-        from engine import explore
-        from driver import Driver, concretise
-        cell, scen = item
-        ex = runner.get_exec()
-
-        def harness(ex):
-            d = Driver(ex, scen)
-            obs = d.run()
-            out = []
-            conds = evaluate(prop, scen, obs, d.val)
-            for i, m in ex.prove_all(conds)[:2]:
-                out.append({'scen': concretise(scen, m), 'msg': conds[i][1], 'kind': conds[i][2]})
-            return out
-        st = explore(ex, harness)
-        return {'paths': st['paths'], 'solver_calls': st['solver_calls'], 'asserts': st['asserts'], 'steps': st['steps'],
-                'infeasible': st['infeasible'], 'findings': st['findings'], 'cells': [str(cell)],
-                'cov_fns': list(ex.cov_fns), 'cov_prims': list(ex.cov_prims), 'sample': scen}
-    return worker
-
-
-def evaluate_native(prop):
-    def ev(f, obs):
-        scen = f['scen']
-        return [msg for c, msg, kind in evaluate(prop, scen, obs, lambda x: x) if c is not True and not _truthy(c)]
-    return ev
-
-
-def _truthy(c):
-    import z3
-    if isinstance(c, bool):
-        return c
-    return z3.is_true(z3.simplify(c))
-
-
-def validation_scenarios(flavours, n_nodes, seed, count):
-    import random
-    rnd = random.Random(seed)
-    pool = []
-    for fl in flavours:
-        pool += [s for _, s in scenarios(fl, n_nodes, 3, provenance=False)]
-        pool += [s for _, s in scenarios(fl, n_nodes, 2, provenance=True)]
-    picks = rnd.sample(pool, min(count, len(pool)))
-    out = []
-    for s in picks:
-        vals = {}
-
-        def conc(x):
-            if isinstance(x, dict) and set(x.keys()) == {'s'}:
-                return vals.setdefault(x['s'], rnd.randint(-3, 3))
-            if isinstance(x, dict):
-                return {k: conc(v) for k, v in x.items()}
-            if isinstance(x, list):
-                return [conc(v) for v in x]
-            return x
-        out.append(conc(s))
-    return out
+def evaluate_ctx(prop, scen, obs, ctx):
+    return evaluate(prop, scen, obs, ctx.val)
 
 
 def run(prop, tier, seed):
-    import runner
-    from runner import Report, Native, parallel, triage, obs_equal, G
-    from engine import explore
-    from driver import Driver
-    rep = Report(prop, tier, seed)
+    from scheck import scenario_check
     flavours = {'C01': ('digraph', 'sync_digraph'), 'C02': ('ungraph', 'sync_ungraph'),
                 'C03': ('digraph', 'sync_digraph', 'ungraph', 'sync_ungraph')}[prop]
     n_nodes = 3
     max_edges = 3 if tier == 'quick' else 4
     prov_edges = 2 if tier == 'quick' else 3
-    rep.bounds = {'nodes': n_nodes, 'max_pre_state_edges': max_edges, 'operations_per_history_step': 1,
-                  'flavours': list(flavours), 'handle_provenance_sweep_max_edges': prov_edges if prop == 'C03' else 0,
-                  'symbolic': 'all edge values (z3 Int), one fresh value for the operation',
-                  'outside': 'more than 3 nodes, more pre-state edges, dropped neighbours'}
     items = []
     for fl in flavours:
         items += list(scenarios(fl, n_nodes, max_edges))
         if prop == 'C03':
             items += list(scenarios(fl, n_nodes, prov_edges, provenance=True))
-    import random
-    random.Random(seed).shuffle(items)
-    rep.extra['sample_fallback'] = items[0][1]
-    native = Native()
-    # translator validation: same concrete scenarios through the executor and the native build
-    vs = validation_scenarios(flavours, n_nodes, seed, 60 if tier == 'quick' else 200)
-    nat = native.run(vs)
-
-    def vworker(pair):
-        scen, nobs = pair
-        ex = runner.get_exec()
-        res = {}
-
-        def h(ex):
-            res['obs'] = Driver(ex, scen).run()
-        explore(ex, h)
-        from driver import concretise
-        ok = obs_equal(json_norm(res['obs']), nobs)
-        return {'paths': 0, 'ok': ok, 'scen': scen, 'sym': json_norm(res['obs']), 'nat': nobs}
-    vres = parallel(list(zip(vs, nat)), vworker)
-    for r in vres:
-        if 'inconclusive' in r:
-            rep.inconclusive.append(r)
-        elif r['ok']:
-            rep.validated += 1
-        else:
-            rep.validation_mismatch.append({'scenario': r['scen'], 'executor': r['sym'], 'native': r['nat']})
-    for r in parallel(items, make_worker(prop), chunksize=8):
-        rep.absorb(r)
-    triage(rep, native, evaluate_native(prop), sig_of)
-    expected_cells = {str((fl, op)) for fl in flavours for op in OPS}
-    missing = expected_cells - set(rep.cells)
-    if missing:
-        rep.inconclusive.append({'inconclusive': f'vacuity: no path reached cells {sorted(missing)}', 'item': ''})
-    return rep.finish(
+    return scenario_check(
+        prop, tier, seed, items, evaluate_ctx, sig_of,
+        bounds={'nodes': n_nodes, 'max_pre_state_edges': max_edges, 'operations_per_history_step': 1,
+                'flavours': list(flavours), 'handle_provenance_sweep_max_edges': prov_edges if prop == 'C03' else 0,
+                'symbolic': 'all edge values (z3 Int), one fresh value for the operation',
+                'outside': 'more than 3 nodes, more pre-state edges, dropped neighbours'},
         assumptions=['std models of engine A (Rc/Arc/Weak, RefCell, RwLock single-thread semantics, Vec, slice iterators, Option/Result) as listed in std_models_used',
                      'rustc MIR (-Zunpretty=mir, overflow-checks on, debug-assertions off) is what gets compiled',
                      'keys are distinct concrete integers; behaviour is invariant under key relabelling (K: Eq+Hash+Clone+Display only)',
                      'every reachable adjacency state is the image of a connect-only history of its surviving edges'],
-        rule='work item = (canonical connect sequence, operation, operands, handle provenance); paths = executor paths through the real MIR; every assertion is a z3 query over all edge values')
-
-
-def json_norm(o):
-    import json as _j
-    import z3
-    if isinstance(o, (list, tuple)):
-        return [json_norm(x) for x in o]
-    if isinstance(o, dict):
-        return {k: json_norm(v) for k, v in o.items()}
-    if isinstance(o, z3.ExprRef):
-        s = z3.simplify(o)
-        if z3.is_int_value(s):
-            return s.as_long()
-        if z3.is_true(s):
-            return True
-        if z3.is_false(s):
-            return False
-        return str(s)
-    return o
+        rule='work item = (canonical connect sequence, operation, operands, handle provenance); paths = executor paths through the real MIR; every assertion is a z3 condition over all edge values',
+        expected_cells=[(fl, op) for fl in flavours for op in OPS])
